@@ -289,6 +289,9 @@ type c03Case struct {
 
 func c03Exec(c *fw.Ctx, hist []string) (ok bool) {
 	c.Eval(1)
+	c.State(1)
+	c.Trace(1)
+	c.Transition(len(hist))
 	world.ResetCapture()
 	b, err := newBed(c, bedOpt{Seed: []refctl.Identity{idL}})
 	if err != nil {
@@ -343,7 +346,6 @@ func init() {
 		Replay: func(c *fw.Ctx, raw json.RawMessage) {
 			var cas c03Case
 			json.Unmarshal(raw, &cas)
-			c.State(1)
 			c03Exec(c, cas.Hist)
 		},
 		Budget: func(t string) time.Duration {
